@@ -130,6 +130,23 @@ type Exec struct {
 	knownMsg map[string]string
 	logOn    bool
 	logLines []string
+	inSeqOp  bool
+	seqHeld  map[uintptr]bool
+}
+
+// reentrant is the panic value used to unwind a call that asked for a
+// lock its own goroutine already holds (sequential configuration).
+type reentrant struct{ obj string }
+
+func (r reentrant) Error() string {
+	return "sim:reentrant: the call asks for the lock of " + r.obj + " which it already holds (a real Lock() would block forever)"
+}
+
+func (x *Exec) objNameByCfg(cfg uintptr) string {
+	if i, ok := x.w.byCfg[cfg]; ok {
+		return x.w.objs[i].name
+	}
+	return "?"
 }
 
 func (x *Exec) logf(f string, a ...any) {
@@ -177,6 +194,22 @@ func (x *Exec) curTask() int {
 // hook is installed as stackage.VerifHook.
 func (x *Exec) hook(point string, inst, cfg, lock uintptr) {
 	t := x.cur
+	if t == nil && x.inSeqOp && !x.dead {
+		// sequential configuration: the driver goroutine is the only client.
+		// A lock it asks for while holding it would block forever in a real
+		// execution: unwind the call and report it.
+		switch point {
+		case "lock.want":
+			if x.seqHeld[lock] {
+				panic(reentrant{x.objNameByCfg(cfg)})
+			}
+		case "lock.held":
+			x.seqHeld[lock] = true
+		case "lock.released":
+			delete(x.seqHeld, lock)
+		}
+		return
+	}
 	if t == nil || x.dead {
 		return
 	}
@@ -359,7 +392,7 @@ func (x *Exec) choose(run []*task) *task {
 func (x *Exec) now() time.Time { return time.Unix(0, x.seq) }
 
 func newExec(tr *Trace, prop Prop, mode int) *Exec {
-	x := &Exec{tr: tr, prop: prop, mode: mode, holder: map[uintptr]*task{}, vcLock: map[uintptr][]int{}, stepCap: 4000}
+	x := &Exec{tr: tr, prop: prop, mode: mode, holder: map[uintptr]*task{}, vcLock: map[uintptr][]int{}, stepCap: 4000, seqHeld: map[uintptr]bool{}}
 	x.rng = NewRng(tr.Seed ^ 0x7363686564756c65)
 	x.stats.Probes = map[string]int{}
 	x.stats.Faults = map[string]int{}
@@ -406,8 +439,17 @@ func (x *Exec) Run() {
 			for i, op := range prog {
 				atomic.AddInt64(&progress, 1)
 				x.step++
+				x.inSeqOp = true
 				out := x.w.invoke(op)
+				x.inSeqOp = false
+				for l := range x.seqHeld {
+					delete(x.seqHeld, l)
+				}
 				x.seq++
+				if strings.HasPrefix(out.Panic, "sim:reentrant") {
+					x.fail("deadlock:reentrant:"+op.M, fmt.Sprintf("%s: %s", op, out.Panic))
+					return
+				}
 				if x.logOn {
 					x.logf("op %d.%d %s -> %s snap=%x", ti, i, op, out, x.snapHash())
 				}
